@@ -1,8 +1,61 @@
-(* C11 - the MMR accumulator always commits to the current leaf list. *)
+(* C11 - the MMR accumulator always commits to the current leaf list.
+   Model: coq/model/Mmr.v (by hand, faithful to mmr_accumulator.rs / shared_basic.rs / shared.rs);
+   specification: coq/spec/MmrSpec.v (peaks_spec = roots of the perfect trees over the chunks of the leaf
+   list given by the binary expansion of its length, highest first). *)
 From Coq Require Import ZArith List Bool.
 From TF Require Import Word MmrIdxLocal Mmr MmrSpec MmrTerm MmrProofs.
 Import ListNotations.
 Open Scope Z_scope.
+
+(* one append on a committing accumulator: the binary-counter step (trailing ones of the count = number
+   of merges) *)
+Theorem C11_append_commits : forall (D : Type) (H : D -> D -> D) (dflt : D) (ls : list D) (d : D),
+  zlength ls + 1 < 2 ^ 64 ->
+  calculate_new_peaks_from_append D H (zlength ls) (peaks_spec D H dflt ls) d =
+  Some (peaks_spec D H dflt (ls ++ [d]), path D H dflt (ls ++ [d]) (zlength ls)).
+Proof. exact append_spec. Qed.
+Print Assumptions C11_append_commits.
+
+(* one leaf mutation with the valid proof *)
+Theorem C11_mutate_commits : forall (D : Type) (H : D -> D -> D) (deq : D -> D -> bool) (dflt : D)
+    (ls : list D) (i : Z) (d : D),
+  0 <= i < zlength ls -> zlength ls < 2 ^ 64 ->
+  calculate_new_peaks_from_leaf_mutation D H (peaks_spec D H dflt ls) (zlength ls) d i (path D H dflt ls i) =
+  Some (peaks_spec D H dflt (upd ls i d)).
+Proof. exact mutate_spec. Qed.
+Print Assumptions C11_mutate_commits.
+
+(* history_commits, FULL statement: any valid history (appends, mutations, batch mutations, all with valid
+   proofs) from a committing accumulator ends in the accumulator built from scratch over the final list *)
+Definition C11_history_commits_full : Prop :=
+  forall (D : Type) (H : D -> D -> D) (deq : D -> D -> bool) (dflt : D) (ops : list (mop D)) (ls : list D)
+         (a : accumulator D),
+    commits D H dflt a ls -> zlength ls < 2 ^ 63 -> mops_valid D H dflt ls ops ->
+    acc_run D H deq a ops =
+    Some (zlength (run D ls (map (erase D) ops)), peaks_spec D H dflt (run D ls (map (erase D) ops))).
+
+(* PARTIAL: proved for histories of appends and single-leaf mutations in any interleaving; the batch
+   step (batch_mutate_leaf_and_update_mps, node-index keyed map) is covered by the correspondence only *)
+Theorem C11_history_commits_partial : forall (D : Type) (H : D -> D -> D) (deq : D -> D -> bool) (dflt : D)
+    (ops : list (mop D)) (ls : list D) (a : accumulator D),
+  commits D H dflt a ls -> zlength ls < 2 ^ 63 ->
+  forallb (fun o => negb (is_batch D o)) ops = true ->
+  mops_valid D H dflt ls ops ->
+  exists ls', ls' = run D ls (map (erase D) ops) /\
+              acc_run D H deq a ops = Some (zlength ls', peaks_spec D H dflt ls') /\ zlength ls' < 2 ^ 63.
+Proof. exact history_commits_nobatch. Qed.
+Print Assumptions C11_history_commits_partial.
+
+Theorem C11_empty_commits : forall (D : Type) (H : D -> D -> D) (dflt : D), commits D H dflt (0, []) [].
+Proof. exact commits_empty. Qed.
+Print Assumptions C11_empty_commits.
+
+Example C11_history_example :
+  acc_run term Node term_eqb (0, [])
+          [MAppend term (Atom 1); MAppend term (Atom 2); MAppend term (Atom 3);
+           MMutate term 1 (Atom 9) [Atom 1]; MAppend term (Atom 4)]
+  = Some (4, [Node (Node (Atom 1) (Atom 9)) (Node (Atom 3) (Atom 4))]).
+Proof. vm_compute. reflexivity. Qed.
 
 (* the bagged commitment is the documented right-to-left fold of the peaks: hash0 = Tip5::hash(&0u128) for no
    peak, the peak itself for one peak, H p (bag rest) otherwise *)
@@ -17,3 +70,23 @@ Theorem C11_bag_peaks_cases : forall (D : Type) (H : D -> D -> D) (hash0 : D),
   (forall p q r, bag_peaks D H hash0 (p :: q :: r) = H p (bag_peaks D H hash0 (q :: r))).
 Proof. exact bag_peaks_cases. Qed.
 Print Assumptions C11_bag_peaks_cases.
+
+(* verify_batch_update, FULL statement (open: needs the exactness of batch_update_from_leaf_mutation) *)
+Definition C11_verify_batch_update_iff_full : Prop :=
+  forall (D : Type) (H : D -> D -> D) (deq : D -> D -> bool) (dflt : D),
+    (forall x y, deq x y = true <-> x = y) ->
+    forall (ls : list D) (new_peaks appended : list D) (lms : list (leaf_mutation D)),
+      zlength ls + zlength appended < 2 ^ 63 ->
+      distinctb (map (fun lm => fst (fst lm)) lms) = true ->
+      Forall (fun lm => 0 <= fst (fst lm) < zlength ls /\ snd lm = path D H dflt ls (fst (fst lm))) lms ->
+      verify_batch_update D H deq (zlength ls, peaks_spec D H dflt ls) new_peaks appended lms =
+      Some (list_deq D deq (peaks_spec D H dflt (apply_muts D ls (map fst lms) ++ appended)) new_peaks).
+
+(* lists with repeated or out-of-range indices are rejected *)
+Theorem C11_rejects_dup_oob : forall (D : Type) (H : D -> D -> D) (deq : D -> D -> bool)
+    (a : accumulator D) (new_peaks appended : list D) (lms : list (leaf_mutation D)),
+  distinctb (map (fun lm => fst (fst lm)) lms) = false \/
+  (exists lm, In lm lms /\ fst a <= fst (fst lm)) ->
+  verify_batch_update D H deq a new_peaks appended lms = Some false.
+Proof. exact vbu_rejects_dup_oob. Qed.
+Print Assumptions C11_rejects_dup_oob.
